@@ -784,7 +784,9 @@ class _Exporter:
         add(body)
         add(f"{indent}return {return_values}")
         script = "\n".join(result)
-        if self.skipped_initializers:
+        if self.skip_initializers:
+            # The script was indented to be nested in make_model(...), whether or not any
+            # initializer turned out to be large enough to be skipped.
             value_infos = _translate_value_infos(graph.value_info)
             return self._substitute_initializers(script, function_name, value_infos)
         return script
